@@ -118,7 +118,8 @@ def run_case(case, ctx):
     else:
         rng = gen.rng_for(case["seed"])
         cfg = draw_cfg(rng)
-        batches = gen.batch_sequence(rng, int(rng.integers(6, 42)), cfg["d"], size=(8, 200) if rng.random() < 0.3 else (8, 60), shift_p=0.3)
+        r_ = rng.random()
+        batches = gen.batch_sequence(rng, int(rng.integers(6, 42)), cfg["d"], size=(8, 200) if r_ < 0.3 else ((3, 9) if r_ < 0.4 else (8, 60)), shift_p=0.3)
         calls = [("set_reference", batches[0])]
         for X in batches[1:]:
             if rng.random() < 0.05:
@@ -137,6 +138,13 @@ def run_case(case, ctx):
     det, m, probe = make(cfg, npar)
     db = cfg["detect_batch"]
     cols = ["f%d" % j for j in range(cfg["d"])]
+    if "literal" in case and case["literal"].get("columns"):
+        cols = list(case["literal"]["columns"])
+    elif "literal" not in case and as_frame and cfg["d"] >= 2 and rng.random() < 0.5:
+        # a frame in which a column label occurs twice (e.g. after a join): features are what they are by position
+        cols[int(rng.integers(1, cfg["d"]))] = cols[0]
+        ctx.count("frames_with_a_repeated_column_label")
+    inject_bad = "literal" not in case and rng.random() < 0.25
     dist_m, eps_m, thr_m = {}, {}, {}
     drifts = 0
     epochs_decided = 0
@@ -149,12 +157,21 @@ def run_case(case, ctx):
             arg = pd.DataFrame(Xa, columns=cols) if as_frame else Xa
             if int_first and i == 0:
                 ctx.count("integer_typed_reference_then_float_batches")
+            if inject_bad and i > 0 and det.drift_state != "drift" and rng.random() < 0.15:
+                # a malformed batch offered in the middle of an epoch (one row, or one column too many) is refused and is not a batch of
+                # the epoch: everything that follows is compared with the specification, which never sees it
+                bad = Xa[:1] if rng.random() < 0.5 else np.column_stack([Xa, Xa[:, :1]])
+                try:
+                    getattr(det, "update")(pd.DataFrame(bad) if (as_frame and bad.shape[1] != len(cols)) else (pd.DataFrame(bad, columns=cols) if as_frame else bad))
+                    ctx.count("malformed_batches_accepted")
+                except ValueError:
+                    ctx.count("malformed_batches_refused")
             mark = tap.mark()
             ncall0 = len(probe.calls) if probe else 0
             getattr(det, op)(arg)
             ev = tap.since(mark, "choice")
             log.append([op, X.tolist() if X.size <= 240 else "omitted%s" % (X.shape,)])
-            base = dict(cfg=cfg, calls=log, step=i)
+            base = dict(cfg=cfg, calls=log, step=i, columns=cols if as_frame else None)
             boot = None
             was_drift = m.state == "drift"
             if op == "set_reference":
